@@ -241,7 +241,8 @@ CLAIMS['C10'] = {
              'trees is free, because there the counter is exactly the number of free frames; a targeted get succeeds only on an entirely free block and '
              'returns it (C02), and - get_at_after_drain_complete - a targeted get of a block that is entirely free and lies in a tree that is not hidden '
              'ALWAYS returns it: both clauses of the property hold in every drained state satisfying the upper invariant (every state after a drain in '
-             'every sequential history of a constructed allocator).'),
+             'every sequential history of a constructed allocator).'
+             ' Theorem conc_quiescent_then_drain_get_with_tree_changes: the same after interleavings in which trees were also changed (class changes, Offline): the quiescent state satisfies the invariant for hidden frames H\' >= H and the completeness theorem applies.'),
     'note': TB + ' Upper-level theorems hold for configurations satisfying CfgOk (class ids < 8, ordered policy, tree size < 2^19: every configuration of the repository; derived from elementary checks by CfgOk.of_checks); they depend on the C23 theorem (bv_decide axioms) through the lower search.',
     'technique': 'Lean 4 completeness proof of the tree search (progress lemma for search_best, visiting order, lower search completeness C12) + drain-probe differential with shadow oracle',
 }
@@ -265,7 +266,8 @@ CLAIMS['C14'] = {
              'class covers the reservations on its trees (need_le_alloc: distinct reserved trees, reservation <= TREE_FRAMES - tree counter by exact '
              'accounting, and the slots visited class by class are exactly the present slots: partition argument). Theorems tree_table_partition / '
              'tree_stats_free_sum / fold_slots_is_list_fold / class_table_add are the parts (tree table; Locals::foldSlots is the left fold over the '
-             'present slots in class order).'),
+             'present slots in class order).'
+             ' Theorem conc_quiescent_partition_with_tree_changes: the partition statement at every quiescent end also when the threads changed trees (class changes, Offline) concurrently.'),
     'note': TB + ' Holds for configurations satisfying CfgOk.',
     'technique': 'Lean 4 induction over the tree table and over the slot fold (program logic), partition/counting argument for non-saturation + sequential differential with partition oracle',
 }
